@@ -247,6 +247,13 @@ def apply_conn_opts(conn, opts, side):
             lim = getattr(conn, "_local_max_streams_" + kind)
             lim.value = v
             lim.sent = v
+    # the three per-stream transport parameters an endpoint advertises (QuicConfiguration sets all of them to
+    # max_stream_data): msd_bidi_local_<side> = streams it opens itself, msd_bidi_remote_<side> = streams the
+    # peer opens, msd_uni_<side> = the peer's unidirectional streams
+    for which in ("bidi_local", "bidi_remote", "uni"):
+        v = opts.get("msd_%s_%s" % (which, side))
+        if v is not None:
+            setattr(conn, "_local_max_stream_data_" + which, v)
 
 
 class Fates:
